@@ -1,0 +1,16 @@
+//go:build !baremetal
+
+package runtime
+
+import "github.com/goplus/llgo/runtime/internal/clite/tls"
+
+// panicTLS holds the innermost pending panic of each thread in a slot that the
+// collector scans (see defer_tls.go for the defer chain).
+var panicTLS = tls.Alloc[*panicRec](func(head **panicRec) {
+	if head != nil {
+		*head = nil
+	}
+})
+
+func getPanic() *panicRec  { return panicTLS.Get() }
+func setPanic(p *panicRec) { panicTLS.Set(p) }
